@@ -251,13 +251,18 @@ def run_check(modname, tier, seed, jobs=None, only=None, verbose=False):
     jobs = jobs or min(16, os.cpu_count() or 4, max(1, len(keys)))
     results = []
     ctx = mp.get_context("spawn")
-    with ctx.Pool(jobs, initializer=_worker_init, initargs=(modname, tier, seed)) as pool:
+    pool = ctx.Pool(jobs, initializer=_worker_init, initargs=(modname, tier, seed))
+    try:
         for r in pool.imap_unordered(_run_one, keys, chunksize=1):
             results.append(r)
             if verbose:
                 print("  [%s] %-9s paths=%d q=%d solver=%.1fs wall=%.1fs %s" % (
                     r["key"], r["status"], r["paths"], r["queries"], r["solver_s"], r["wall_s"],
                     (r["error"] or "")[:300]), flush=True)
+        pool.close()
+        pool.join()
+    finally:
+        pool.terminate()
     results.sort(key=lambda r: r["key"])
     return finish(mod, pid, tier, seed, results, time.time() - t0, verbose)
 
